@@ -446,9 +446,10 @@ package pegnet
 //@ // SQLite/database-sql transaction semantics (trusted): BEGIN gives a view equal to the committed state, which satisfies the
 //@ // ledger invariants because every COMMIT is only issued on a state that satisfies them (requires of Commit)
 //@ extern func (*database/sql.DB).BeginTx
-//@   modifies LmetaSynced, Lbal, Lsupply, Lrel, Lexec, LtoAmt, Lrefund, Lhist, Lhold, Lrated, Lrate, LbankPresent, LbankAmt, LbankUsed, LbankReq, LsyncPresent, LsyncVer, LsnapCur, LsnapPast, LsnapInCur, LsnapInPast
+//@   modifies LmetaSynced, Lbal, Lsupply, Lrel, Lexec, LtoAmt, Lrefund, Lhist, Lhold, Lrated, Lrate, LbankPresent, LbankAmt, LbankUsed, LbankReq, LsyncPresent, LsyncVer, LsnapCur, LsnapPast, LsnapInCur, LsnapInPast, LpegPaid
 //@   ensures result1 == nil ==> result0 != nil && LmetaSynced == Csynced && ledgerInv(Lbal, Lexec, Lrel, Lhist, Lhold)
 //@   ensures result1 == nil ==> (forall h int :: heldUnexecuted(Lhold, Lrel, Lrated, h) || h != Csynced + 1)
+//@   ensures result1 == nil ==> (forall h int :: heldUnexecuted(Lhold, LpegPaid, Lrated, h) || h != Csynced + 1)
 //@   ensures result1 == nil ==> (forall h int :: h > Csynced ==> !Lrated[h])
 //@
 //@ extern func (*database/sql.Tx).Commit
@@ -460,7 +461,7 @@ package pegnet
 //@   ensures result != nil ==> Csynced == old(Csynced)
 //@
 //@ extern func (*database/sql.Tx).Rollback
-//@   modifies LmetaSynced, Lbal, Lsupply, Lrel, Lexec, LtoAmt, Lrefund, Lhist, Lhold, Lrated, Lrate, LbankPresent, LbankAmt, LbankUsed, LbankReq, LsyncPresent, LsyncVer, LsnapCur, LsnapPast, LsnapInCur, LsnapInPast
+//@   modifies LmetaSynced, Lbal, Lsupply, Lrel, Lexec, LtoAmt, Lrefund, Lhist, Lhold, Lrated, Lrate, LbankPresent, LbankAmt, LbankUsed, LbankReq, LsyncPresent, LsyncVer, LsnapCur, LsnapPast, LsnapInCur, LsnapInPast, LpegPaid
 //@   ensures LmetaSynced == Csynced
 //@
 //@ func (Pegnet).MarkHeightSynced
